@@ -32,8 +32,12 @@ func describeLoop(f *ssa.Function, h *ssa.BasicBlock, names map[ssa.Value]string
 	n := 0
 	var others []*ssa.Phi
 	for _, p := range phisOf(h) {
-		if _, ok := inductionOf(p); ok {
+		if iv, ok := inductionOf(p); ok {
 			local[p] = "i"
+			if iv.init == 0 && iv.step == 16 {
+				// a byte offset stepping by one block is 16 times the block index
+				local[p] = "mul(0x10,i)"
+			}
 		} else {
 			local[p] = fmt.Sprintf("P%d", n)
 			n++
